@@ -37,6 +37,22 @@ def gen_case(rng: random.Random, i: int, thorough: bool):
     return {"shot": p, "d_yd": d_yd, "prev_zero_rad": prev, "cfg": cfg}
 
 
+def steep_long_case(rng, i):
+    """very steep sight line and a long zero distance: the first guess is far off and the horizontal distance is about half
+    the look distance, so a correction that is damped (or scaled by the wrong one of the two distances) runs out of
+    iterations although the target is comfortably reachable"""
+    c = gen_case(rng, i, False)
+    p = c["shot"]
+    p["look_deg"] = rng.choice([58.0, -58.0, 59.0, 57.0, -59.0, 55.0])
+    p["table"], p["bc"] = rng.choice([("G7", 0.3), ("G7", 0.42), ("G1", 0.6)])
+    p["mv_fps"] = round(rng.uniform(2700, 3300), 1)
+    p["alt_ft"] = 6000.0 if p["look_deg"] < 0 else 0.0
+    p["winds"] = p["winds"][:1]
+    c["d_yd"] = round(rng.uniform(800, 1500), 1)
+    c["cfg"] = {"max_calc_step_size_feet": 2.0}
+    return c
+
+
 def unreachable_case(rng, i):
     c = gen_case(rng, i, False)
     c["shot"]["look_deg"] = rng.choice([0.0, 3.0])
@@ -110,7 +126,9 @@ def run_case(case, tid):
     info = {"case": case, "reachable": reachable, "outcome": outcome, "iterations": len(z["iters"]) if z else None,
             "last_elevation_above_sight_line_rad": None if last_elev is None else last_elev - look,
             "arc_class": "unknown" if last_elev is None else ("high" if abs(last_elev - look) > 0.12 else "flat"),
-            "last_error_ft": z["iters"][-1]["error"] if z and z["iters"] else None}
+            "last_error_ft": z["iters"][-1]["error"] if z and z["iters"] else None,
+            "error_tail_ft": [it["error"] for it in z["iters"][-6:]] if z else None,
+            "elevation_tail_rad": [it["elevation"] for it in z["iters"][-6:]] if z else None}
     end = {"tid": tid, "ev": "ZEnd", "outcome": outcome if not outcome.startswith("other") else "other",
            "storedSame": bool(float(stored_after.raw_value).hex() == sb[0]),
            "storedIsResult": True, "observed": False, "missOK": True}
@@ -181,6 +199,14 @@ def run_case(case, tid):
                 info["error_within_sampling_jump"] = bool(z["iters"][-1]["error"] <= jump * 1.05)
         except Exception as ex:  # noqa
             info["sampling_jump_error"] = type(ex).__name__
+    # signature of the recorded sampling-discontinuity finding: the search has entered a CYCLE (the same elevations recur with
+    # period 2..4); a search that is still converging when the cap runs out (damped / mis-scaled correction) has no cycle
+    et = info.get("elevation_tail_rad") or []
+    cyc = False
+    if len(et) >= 3:
+        dmax = max(abs(a - b) for a, b in zip(et, et[1:]))
+        cyc = dmax > 0 and any(len(et) > p_ and abs(et[-1] - et[-1 - p_]) <= 1e-3 * dmax for p_ in (2, 3, 4))
+    info["elevations_cycle"] = bool(cyc)
     lines.append(end)
     info["end"] = end
     return lines, info
@@ -206,7 +232,9 @@ def run(chk: core.Check, replay=None) -> None:
     n = 600 if thorough else 52
     lines, infos = [], {}
     for i in range(n):
-        case = gen_case(rng, i, thorough) if i % 9 != 8 else unreachable_case(rng, i)
+        case = unreachable_case(rng, i) if i % 9 == 8 else (steep_long_case(rng, i) if i % 9 == 4 else gen_case(rng, i, thorough))
+        if i % 9 == 4:
+            chk.stratum("steep_and_long")
         ls, info = run_case(case, i + 1)
         lines += ls
         infos[i + 1] = info
@@ -230,11 +258,12 @@ def run(chk: core.Check, replay=None) -> None:
         look = abs(info["case"]["shot"]["look_deg"])
         chk.violation(clause, {"look_class": "level" if look < 1 else ("mild" if look <= 10 else ("steep" if look < 40 else "very_steep")),
                                "outcome": info["outcome"], "reachable": info["reachable"], "arc_class": info["arc_class"],
-                               "error_within_sampling_jump": info.get("error_within_sampling_jump")}, info)
+                               "error_within_sampling_jump": info.get("error_within_sampling_jump"),
+                               "elevations_cycle": info.get("elevations_cycle")}, info)
     chk.sample({k: v for k, v in infos[1].items()})
     chk.sample({"trace_lines": lines[:4]})
     chk.require_strata(["outcome_Returned", "outcome_RangeErr", "reachable", "unreachable", "look_level", "look_mild", "look_steep",
-                        "miss_observed", "previous_zero_nonzero", "small_iteration_cap_ZeroErr", "wind_changes_inside_zero_distance"])
+                        "miss_observed", "previous_zero_nonzero", "small_iteration_cap_ZeroErr", "wind_changes_inside_zero_distance", "steep_and_long"])
     chk.exhaustive = False
     chk.rule.append("seeded un-canted shots (G1/G7/.. tables, 600-4000 fps, sight heights -2..6 in, look angles 0, +-5..+-59 deg, 0-2 "
                     "winds, previously stored zero 0 / small / large / negative) x zero distances 10 yd - 1500 yd, plus unreachable "
